@@ -12,6 +12,8 @@ HOOKS = {
 ENGINES = [
     {"name": "E1 tabsym", "path": "vlib/e1.py", "serves_properties": ["C01","C04","C05","C12","C13","C14","C15","C25"],
      "kind_free_text": "Kani/CBMC bounded model checking of the real generated table functions (harness injected into the generated module), CYK oracle from an independent specification CFG"},
+    {"name": "E4 lexsym", "path": "vlib/lexsym.py", "serves_properties": ["C09", "C10", "C11"],
+     "kind_free_text": "z3 sequence/regex theory over the lexer tables the real generator emitted; regex-syntax HIR via engines/hirdump; alphabet compression; native confirmation with the real Matcher"},
     {"name": "kernels", "path": "vlib/kernel.py", "serves_properties": ["C28"],
      "kind_free_text": "Kani/CBMC harness crates over library kernels of lalrpop-util with Kani concrete playback as native replay"},
 ]
@@ -64,8 +66,26 @@ chk("C28", "kernels", "model_checking",
     "Trusted: rustc/Kani/CBMC; one instantiation of the generic helpers; Display list lengths are concrete (symbolic lengths do not terminate in CBMC here).",
     "bounded model checking (Kani/CBMC) of lalrpop-util helpers over symbolic error values; counterexamples replayed by Kani concrete playback", "DESIGN.md §3 C28")
 
+E4_NOTE = ("Trusted: regex-syntax's parser/HIR (same configuration as the runtime), regex-automata's HIR->DFA compilation, z3's sequence/regex solver, "
+           "vlib/lexsym.py (HIR->z3 with alphabet compression; sanity-checked on known-equivalent/known-different pairs), engines/hirdump. "
+           "Witnesses are confirmed with the real lalrpop_util::lexer::Matcher before being reported.")
+chk("C09", "E4 lexsym", "translation_validation",
+    "PARTIAL (generator side decided symbolically; runtime loop on native runs): for each accepted corpus terminal set z3 decides, for ALL input strings up to L code points "
+    "(quick 3, thorough 5) over the compressed alphabet, that 'longest prefix, then largest emitted pattern index, then the emitted skip flag / Token(i,_) mapping' picks the same length "
+    "and the same terminal (or skip) as 'longest prefix, then documented precedence' on the source match block. Whole tokenizations incl. byte-offset spans and InvalidToken positions are compared "
+    "on the real Matcher for all strings up to length 3 over class representatives.", E4_NOTE,
+    "SMT (z3 regex/sequence theory) over the generator's emitted lexer tables vs the documented precedence rules; symbolic input string", "DESIGN.md §2 E4, §3 C09")
+chk("C10", "E4 lexsym", "translation_validation",
+    "For every corpus literal (all printable ASCII characters, pairs of regex metacharacters, quotes/backslashes/control characters, non-ASCII, combining marks, regex-looking words) and every corpus regex "
+    "(classes, negation, repetition bounds, alternation, groups, flags, Unicode classes, escapes) z3 decides over ALL strings that the pattern text the generator emitted denotes exactly {s} / exactly L(re).", E4_NOTE,
+    "SMT (z3 regex theory): language equivalence of emitted pattern vs source pattern, unbounded strings, alphabet compression", "DESIGN.md §3 C10")
+chk("C11", "E4 lexsym", "translation_validation",
+    "For every corpus terminal set (match rungs, literals vs regexes, non-ASCII literals vs Unicode classes, covered overlaps, unsupported features) z3 decides over ALL strings whether two equal-precedence "
+    "terminals tie on some string no higher-precedence terminal claims; the generator must answer 'ambiguity detected' exactly then, and the unsupported-feature diagnostic for look-around / non-greedy / named captures.", E4_NOTE,
+    "SMT (z3 regex theory): non-emptiness of pairwise intersections minus higher-precedence languages vs the generator's verdict", "DESIGN.md §3 C11")
+
 _pending = "check not built yet in this session (see DESIGN.md plan); will be claimed when its engine lands"
-for p in ["C02","C03","C06","C08","C09","C10","C11","C16","C17"]:
+for p in ["C02","C03","C06","C08","C16","C17"]:
     NA[p] = _pending
 NA["C07"] = "needs symbolic execution of the generated recursive-ascent code; Kani cannot (probe P2: >7 GB at N=1), not generic so the native symbolic driver cannot instantiate it"
 NA["C18"] = "the code is the grammar-file tokenizer, the self-hosted parser and the normaliser over interned strings/BTreeMaps; the tokenizer does not fit Kani even for 2 symbolic characters (probe P13)"
